@@ -62,6 +62,13 @@ MSet(p, o, v) ==
             /\ stale' = [q \in Procs |-> IF q # p /\ obj[o].owner = 0 /\ o \in snap[q] THEN stale[q] \cup {o} ELSE stale[q] \ (IF q = p THEN {o} ELSE {})]
        ELSE /\ out' = Out("INV", o, 0, {}) /\ hnd' = [hnd EXCEPT ![p] = @ \ {o}] /\ UNCHANGED <<obj, stale>>
 
+\* a C_SetAttributeValue that is REFUSED (an attribute the class does not have): like a read, it looks at the object -
+\* and it changes nothing, in particular not what the process will see of the other processes' later changes
+MBadSet(p, o) ==
+    /\ Spend /\ "badset" \in Kinds /\ o \in hnd[p] /\ Look(p, LiveTok) /\ UNCHANGED <<obj, nxt>>
+    /\ IF Live(o) THEN /\ out' = Out("ERR", o, 0, {}) /\ UNCHANGED hnd /\ stale' = [stale EXCEPT ![p] = @ \ {o}]
+                  ELSE /\ out' = Out("INV", o, 0, {}) /\ hnd' = [hnd EXCEPT ![p] = @ \ {o}] /\ UNCHANGED stale
+
 MGet(p, o) ==
     /\ Spend /\ "get" \in Kinds /\ o \in hnd[p] /\ Look(p, LiveTok) /\ UNCHANGED <<obj, nxt>>
     /\ IF Live(o) THEN /\ out' = Out("OK", o, obj[o].lab, {}) /\ UNCHANGED hnd /\ stale' = [stale EXCEPT ![p] = @ \ {o}]
@@ -85,6 +92,7 @@ MFind(p, v) ==
 Next == \/ \E p \in Procs, priv \in BOOLEAN, tok \in BOOLEAN : MCreate(p, priv, tok)
         \/ \E p \in Procs, o \in Ids, v \in Vals : MSet(p, o, v)
         \/ \E p \in Procs, o \in Ids : MGet(p, o)
+        \/ \E p \in Procs, o \in Ids : MBadSet(p, o)
         \/ \E p \in Procs, o \in Ids : MDestroy(p, o)
         \/ \E p \in Procs, v \in Vals \cup {99} : MFind(p, v)
 Spec == Init /\ [][Next]_vars
